@@ -15,7 +15,8 @@ A program (JSON-able dict):
       M:  entity.level = v / entity.level = (entity.level or 0) + v
   levels: {ent: int}   initial `level` attribute (absent: None)
     term: ["Y", delay_seconds_float] | ["W", f] | ["Z"]
-  end:  int ns | None
+  end:  int ns | None   (absolute; with "dur": d (seconds, float) the run is built with duration=d and end = start + int(d*1e9))
+  start: int ns         Simulation(start_time=…) (default: not passed); all pre-run events are stamped ≥ start
   nfut: int
 
 The same program is rendered for the Lean driver by `program_lines`.
@@ -329,13 +330,20 @@ class Harness:
         from happysimulator.core.simulation import Simulation
 
         end = self.prog.get("end")
+        start = self.prog.get("start", 0)
         kw = dict(entities=list(self.ents))
+        if start or self.prog.get("start_explicit"):
+            kw["start_time"] = self.Instant(start)
         if end is not None:
-            kw["end_time"] = self.Instant(end)
+            if self.prog.get("dur") is not None:
+                # the horizon given as `duration=` (seconds, relative to start_time); prog["end"] is start + that
+                kw["duration"] = self.prog["dur"]
+            else:
+                kw["end_time"] = self.Instant(end)
         kw.update(sim_kwargs)
         self.sim = Simulation(**kw)
         for p in self.prog["pre"]:
-            ev = self.make_event(p["time"], p["tgt"], p["kind"], p["daemon"], p["hook"], 0, hops=p.get("hops"))
+            ev = self.make_event(p["time"], p["tgt"], p["kind"], p["daemon"], p["hook"], start, hops=p.get("hops"))
             self.sim.schedule(ev)
             self.pre_specs.append((self.tagc, p["time"], p["tgt"], p["kind"], p["daemon"]))
             if p.get("cancelled"):
@@ -372,7 +380,7 @@ class Harness:
         self.ndeliv = 0
         self.emit_log("RST")
         for tag, t, tgt, kind, dm in self.pre_specs:
-            self.trace.append(f"c {tag} {t} {tgt} {kind} {1 if dm else 0} 0")
+            self.trace.append(f"c {tag} {t} {tgt} {kind} {1 if dm else 0} {self.prog.get('start', 0)}")
 
     def rerun(self):
         """control.reset() after a completed run, then run() again, recorded as a run of its own: the replayed
@@ -388,7 +396,7 @@ class Harness:
         for e in self.ents:
             e.inflight = 0
         for tag, t, tgt, kind, dm in self.pre_specs:
-            self.trace.append(f"c {tag} {t} {tgt} {kind} {1 if dm else 0} 0")
+            self.trace.append(f"c {tag} {t} {tgt} {kind} {1 if dm else 0} {self.prog.get('start', 0)}")
         return self.run()
 
     def run(self, driver=None):
@@ -446,6 +454,8 @@ def make_stateless(prog):
 
 def program_lines(prog):
     lines = [f"ents {prog['ents']}"]
+    if prog.get("start"):
+        lines.append(f"start {prog['start']}")
     for x, v in sorted((prog.get("levels") or {}).items()):
         lines.append(f"lvl {x} {v}")
     for i, p in enumerate(prog["pre"]):
